@@ -610,6 +610,9 @@ def start_dist(rng, name, mode):
     elif mode == "touch":   # ball exactly fits: mean ± sigma inside
         i = rng.randrange(len(mean))
         mean[i] = hi[i] - sigma[i]
+    elif mode == "wide":    # an uninformative start: the ball is wider than the prior box in one parameter
+        i = rng.randrange(len(mean))
+        sigma[i] = (hi[i] - lo[i]) * rng.uniform(1.0, 3.0)
     return mean, sigma
 
 
@@ -622,7 +625,7 @@ def gen_random_history(rng, names):
     for i in range(nops):
         cont = i > 0 and rng.random() < 0.7
         nburn, nrun = rng.randint(0, 3), rng.randint(1, 4)
-        mode = rng.choice(["in", "in", "in", "edge", "touch"])
+        mode = rng.choice(["in", "in", "in", "edge", "touch", "wide"])
         mean, sigma = start_dist(rng, name, mode)
         crash = None
         if rng.random() < 0.35:
@@ -658,6 +661,8 @@ def fixed_histories(rng):
         out.append(("flcdm2", {"backend": bk, "ops": [mk_op(False, 8, 1, 2, m, sg, 81, crash=5), mk_op(False, 10, 1, 2, m, sg, 82)]}))
         out.append(("flcdm2", {"backend": bk, "ops": [mk_op(False, 12, 0, 2, m, sg, 83, crash=12), mk_op(False, 8, 1, 1, m, sg, 84),
                                                      mk_op(True, 8, 0, 2, m, sg, 85)]}))
+    # a start ball much wider than the box
+    out.append(("flcdm2", {"backend": "mem", "ops": [mk_op(False, 16, 1, 2, m, [300.0, sg[1]], 91)]}))
     # no backend keyword at all
     out.append(("flcdm3", {"backend": "none", "ops": [mk_op(False, 8, 1, 2, CFGS["flcdm3"]["center"], CFGS["flcdm3"]["width"], 51)]}))
     # every block of the cosmology that is still sampled must be followed by the likelihood: h0 and om fixed, w / ok free
